@@ -193,7 +193,7 @@ fn decode_check() -> i32 {
 fn totals_check() -> i32 {
     use slicec::diagnostics::{get_totals, DiagnosticLevel};
     use slicec::slice_options::SliceOptions;
-    let mut rep = Report::new("totals", "8 programs x 4 suppression settings; totals vs levels of the updated diagnostics");
+    let mut rep = Report::new("totals", "8 programs x 4 suppression settings: totals vs levels of the updated diagnostics; 5 multi-phase programs: a later phase runs only if no error was recorded so far, warnings never stop one");
     let corpus = [
         "module M\n[deprecated] struct A {}\nstruct B { a: A }\n",
         "module M\n/// @param x: nothing\ninterface I { op() }\n",
@@ -217,6 +217,32 @@ fn totals_check() -> i32 {
             rep.case(!diags.is_empty(), || format!("{:?} allow={:?} -> ({w},{e})", text, allow));
             if (w, e) != (ew, ee) {
                 rep.counterexample(&format!("{text:?} allow={allow:?}"), &format!("(warnings,errors)=({ew},{ee})"), &format!("({w},{e})"));
+            }
+        }
+    }
+    // ---- phase gating: a later phase runs only if no error was recorded so far; warnings never stop one -------
+    let phase_cases: [(&str, &[&str], &[&str], &[&str]); 5] = [
+        ("syntax error in one file, unresolved type in another: patching must not run", &["module A\nstruct S {\n", "module B\nstruct T { m: Missing }\n"], &["E002"], &["E033"]),
+        ("unresolved type, and a rule violation elsewhere: validation must not run", &["module A\nstruct T { m: Missing }\n", "module B\ncompact struct C {}\n"], &["E033"], &["E018"]),
+        ("only a parse-time WARNING (malformed doc comment): patching and validation still run", &["module A\n/// @nosuchtag x\nstruct S {}\ncompact struct C {}\n"], &["MalformedDocComment", "E018"], &[]),
+        ("only a patch-time WARNING (deprecated use): validation still runs", &["module A\n[deprecated] struct Old {}\nstruct U { o: Old }\ncompact struct C {}\n"], &["Deprecated", "E018"], &[]),
+        ("a cycle: the recursive validators must not run after it", &["module A\nstruct S { s: S }\ncompact struct C {}\n"], &["E032"], &["E018"]),
+    ];
+    for (name, files, must, must_not) in phase_cases {
+        rep.case(true, || name.to_owned());
+        let fs: Vec<String> = files.iter().map(|s| s.to_string()).collect();
+        let out = std::panic::catch_unwind(move || {
+            let refs: Vec<&str> = fs.iter().map(|s| s.as_str()).collect();
+            let options = SliceOptions::default();
+            let state = slicec::compile_from_strings(&refs, Some(&options));
+            state.into_diagnostics(&options).iter().map(|d| d.code().to_owned()).collect::<Vec<_>>()
+        });
+        match out {
+            Err(_) => rep.counterexample(name, "diagnostics", "PANIC"),
+            Ok(codes) => {
+                let missing: Vec<&&str> = must.iter().filter(|c| !codes.iter().any(|x| x == **c)).collect();
+                let extra: Vec<&&str> = must_not.iter().filter(|c| codes.iter().any(|x| x == **c)).collect();
+                if !missing.is_empty() || !extra.is_empty() { rep.counterexample(&format!("{name}: {files:?}"), &format!("codes including {must:?} and none of {must_not:?}"), &format!("{codes:?}")); }
             }
         }
     }
